@@ -289,6 +289,10 @@ def gen(rnd, *, core=False, res_choices=(60, 60, 30, 15), subslot=True, alap=Non
         for g in m["groups"]:
             if shifts and rnd.random() < 0.25:
                 g["shift"] = rnd.choice(sorted(shifts))      # members without hours of their own work this shift
+            elif rnd.random() < 0.12:
+                # hours written on the group itself; for its members the NEAREST declaration counts (a shift named by an
+                # outer group does not beat hours given by an inner one)
+                g["inline"] = gen_shift_specs(rnd, res, aligned=aligned, crossmid=False) or [(0, 4, [(8 * 60, 12 * 60)])]
             if rnd.random() < 0.3:
                 s = base + timedelta(days=rnd.randrange(0, max(2, min(14, span_days))))
                 g["leaves" if rnd.random() < 0.5 else "vacs"] = [(s, None) if rnd.random() < 0.5 else (s, s + timedelta(days=rnd.randint(1, 2)))]
